@@ -1,0 +1,25 @@
+//go:build verif
+
+package lib
+
+// Contracts for the verification machinery in /verif (comment-only; see /verif/DESIGN.md).
+
+// The verifier of the car tool (C05: "the library's own inspection accepts the file, as does its verifier whenever
+// every root is among the stored blocks"): each refusal is allowed only under its own condition, so a well-formed
+// CARv2 — data offset >= 51, index offset at or after the end of the payload, roots present, index resolving every
+// non-identity block — is not refused by a header check. (This module builds against the released go-car/v2 of the
+// module cache, as cmd/go.mod says; the callees are therefore unknown callees here.)
+
+//@ func VerifyCar
+//@   let roots, rerr := call[Reader.Roots#0]
+//@   let fsz := call[FileInfo.Size#0]
+//@   let gerr := call[Index.GetAll#0]
+//@   call[fmt.Errorf#0] assert refuses_only_an_archive_without_roots [C05]: rerr == nil && len(roots) == 0
+//@   call[fmt.Errorf#1] assert refuses_only_an_empty_payload [C05]: rx.Version == 2 && rx.Header.DataSize == 0
+//@   call[fmt.Errorf#2] assert refuses_only_bytes_after_an_indexless_payload [C05]: rx.Version == 2 && rx.Header.IndexOffset == 0 && wrap_u64(fsz) > wrap_u64(51 + rx.Header.DataSize)
+//@   call[fmt.Errorf#3] assert refuses_only_a_payload_inside_the_headers [C05]: rx.Version == 2 && rx.Header.DataOffset < 51
+//@   call[fmt.Errorf#4] assert refuses_only_an_index_that_overlaps_the_payload [C05]: rx.Version == 2 && rx.Header.IndexOffset < wrap_u64(51 + rx.Header.DataSize)
+//@   call[fmt.Errorf#6] assert refuses_only_a_block_the_index_does_not_resolve [C05]: gerr != nil
+//@   call[car.NewBlockReader#0] assert scans_the_same_file [C05]: true
+//@   call[os.Open#0] assert opens_the_same_file [C05]: arg0 == file
+//@   call[car.OpenReader#0] assert opens_the_given_file [C05]: arg0 == file
